@@ -127,12 +127,18 @@ FO(s, k, x0, y0) == [s EXCEPT !.text = @ \o (IF k = "1" THEN "" ELSE " k_0=" \o 
 HasFalseOrigin(s) == s.x0 # "0" \/ s.y0 # "0"
 Hemi(lat) == IF lat > 0 THEN "N" ELSE IF lat < 0 THEN "S" ELSE "0"
 
-\* merc: lat_0 is never written (its meaning is outside the statement); true scale k_0 on the equator, or 1 at lat_ts
+\* merc: true scale k_0 on the equator, or 1 at lat_ts.  lat_0 is documented as "latitude of the projection center"
+\* (Rumination 002, with the example `merc lon_0=9 lat_0=54 lat_ts=56`): the centre (lon_0, lat_0) maps to the false
+\* origin, and the projection stays the conformal Mercator with its true scale on the equator (at first never written
+\* here; the corner hunt showed that the code shifted the latitude instead: not conformal, wrong origin)
+MercAt(lon0, lat0) == [Sh("merc lat_0=" \o T(lat0) \o (IF lon0 = 0 THEN "" ELSE " lon_0=" \o T(lon0)), lon0, lat0)
+                         EXCEPT !.par = {<<0, "k0">>}, !.hemi = Hemi(lat0), !.tag = "lat_0"]
 Merc(lon0) == [Sh("merc" \o (IF lon0 = 0 THEN "" ELSE " lon_0=" \o T(lon0)), lon0, 0) EXCEPT !.par = {<<0, "k0">>}]
 MercTs(lon0, ts) == [Sh("merc lat_ts=" \o T(ts) \o (IF lon0 = 0 THEN "" ELSE " lon_0=" \o T(lon0)), lon0, 0)
                        EXCEPT !.k = "", !.par = {<<ts, "one">>}, !.hemi = Hemi(ts), !.tag = "lat_ts"]
 MercShapes ==
-    {Merc(0), FO(Merc(90), "0.9996", "500000", "-100000"), MercTs(0, 560), MercTs(-1000, -300)}
+    {Merc(0), FO(Merc(90), "0.9996", "500000", "-100000"), MercTs(0, 560), MercTs(-1000, -300),
+     MercAt(90, 540), FO(MercAt(-1000, -250), "0.9996", "500000", "-100000")}
     \cup (IF Q THEN {} ELSE {FO(Merc(-1000), "2", "0", "10000000"), MercTs(90, 800), [FO(MercTs(0, -725), "1", "500000", "0") EXCEPT !.k = ""]})
 
 WebmercShapes == {[Sh("webmerc", 0, 0) EXCEPT !.par = {<<0, "one">>}]}
